@@ -32,6 +32,18 @@ pub mod subtle_stub {
         pub fn is_some(&self) -> Choice {
             Choice(self.0.is_some())
         }
+        pub fn is_none(&self) -> Choice {
+            Choice(self.0.is_none())
+        }
+        pub fn into_option(self) -> Option<T> {
+            self.0
+        }
+        pub fn map<U>(self, f: impl FnOnce(T) -> U) -> CtOption<U> {
+            CtOption(self.0.map(f))
+        }
+        pub fn and_then<U>(self, f: impl FnOnce(T) -> CtOption<U>) -> CtOption<U> {
+            CtOption(self.0.and_then(|x| f(x).0))
+        }
     }
     impl<T> From<CtOption<T>> for Option<T> {
         fn from(c: CtOption<T>) -> Option<T> {
@@ -150,11 +162,35 @@ impl Sec1Point {
     pub fn as_bytes(&self) -> &[u8] {
         &self.0
     }
+    pub fn is_compressed(&self) -> bool {
+        self.0[0] == 2 || self.0[0] == 3
+    }
+    pub fn is_identity(&self) -> bool {
+        false
+    }
 }
 pub struct Secp256k1;
 #[derive(Copy, Clone, Debug)]
 pub struct U256(S);
+impl From<&Scalar> for U256 {
+    fn from(s: &Scalar) -> U256 {
+        U256(s.0)
+    }
+}
+impl From<Scalar> for U256 {
+    fn from(s: Scalar) -> U256 {
+        U256(s.0)
+    }
+}
 impl U256 {
+    pub fn to_be_bytes(&self) -> FieldBytes {
+        symcore::scalar_be32(self.0)
+    }
+    pub fn to_le_bytes(&self) -> FieldBytes {
+        let mut b = symcore::scalar_be32(self.0);
+        b.reverse();
+        b
+    }
     pub fn from_be_slice(b: &[u8]) -> U256 {
         match symcore::unblock32(b) {
             Some((_, h)) => U256(S(h)),
